@@ -138,7 +138,7 @@ func (p PackedSignature) ReadFrom(r io.Reader) (n int64, err error) {
 		if p.Signature == nil {
 			p.Signature = new(Signature)
 		}
-		n2, err := r.Read(p.Signature[:])
+		n2, err := io.ReadFull(r, p.Signature[:])
 		return n1 + int64(n2), err
 	} else {
 		p.Signature = nil
